@@ -13,8 +13,8 @@ RULE = ('malformed-input stream for the decoding entry points, debug and release
         'decode_error on random words of every size, words with t or more leading zero syndromes (constructed by solving for them), words '
         'far outside the radius; try_from_bits / DataMatrix::decode on random arrays, renderings of random codeword vectors (valid finder, '
         'garbage content) and wrong shapes; non-trivial = input rejected or accepted after real work (not an empty input); ECI designators of every form with every second / third codeword value; the regression corpus of former panic witnesses')
-THEOREMS = 'C05_decode_data, C05_decode_str, C05_try_from_bits, C05_rs_success_shape, C05_codewords_total, C05_decode_glue'
-ASSUMPTIONS = ['partial: no-panic of the Reed-Solomon decoder (Levinson-Durbin, Bjoerck-Pereyra index/division safety and its debug assertions) is not a theorem; it is covered by the debug+release correspondence and the malformed-word families', 'hang detection: wall-clock limit on the harness process', 'allocation failure and stack exhaustion are outside the model']
+THEOREMS = 'C05_decode_data, C05_decode_str, C05_try_from_bits, C05_rs_decoder, C05_rs_locator, C05_rs_success_shape, C05_codewords_total, C05_decode_glue, C05_decode_symbol'
+ASSUMPTIONS = ['partial: the Reed-Solomon decoder is proved free of index, division, underflow, assertion and termination failures for every word EXCEPT the debug-build self-check of identities (3)/(4) in the Levinson-Durbin loop (PAssertLD, absent from release builds); that this self-check never fires is covered by the debug+release correspondence and the malformed-word families', 'hang detection: wall-clock limit on the harness process', 'allocation failure and stack exhaustion are outside the model']
 
 
 def gen_cases(rng, tier, ctx):
